@@ -14,6 +14,7 @@ import (
 	"strings"
 
 	ipfslog "berty.tech/go-ipfs-log"
+	"berty.tech/go-ipfs-log/accesscontroller"
 	"berty.tech/go-ipfs-log/entry"
 	"berty.tech/go-ipfs-log/entry/sorting"
 	idp "berty.tech/go-ipfs-log/identityprovider"
@@ -23,6 +24,16 @@ import (
 	"verifharness/hx"
 	"verifharness/mockstore"
 )
+
+// denyAC is an access controller that refuses entries written by the given identities.
+type denyAC struct{ denied map[string]bool }
+
+func (d *denyAC) CanAppend(e accesscontroller.LogEntry, _ idp.Interface, _ accesscontroller.CanAppendAdditionalContext) error {
+	if id := e.GetIdentity(); id != nil && d.denied[hexs(id.PublicKey)] {
+		return fmt.Errorf("denied by verif access controller")
+	}
+	return nil
+}
 
 type replica struct {
 	log    *ipfslog.IPFSLog
@@ -49,7 +60,7 @@ type world struct {
 }
 
 type coreStats struct {
-	Histories, Ops, Appends, Joins, JoinNs, Loads, Iters, SetIds, TieHists, Forks, Exchanges int
+	Histories, Ops, Appends, Joins, JoinNs, Loads, Iters, SetIds, TieHists, Forks, Exchanges, DeniedAppends, RejectedJoins, AclHists int
 	OpHist                                                                                 map[string]int
 	DistinctNontrivial                                                                     int
 	shapes                                                                                 map[string]bool
@@ -147,15 +158,26 @@ func (w *world) observe(i int) {
 		l.Clock.GetTime(), lst(sh), lst(sv), lst(jh))
 }
 
-func (w *world) newReplica(id, writer, sk string) int {
+func (w *world) newReplica(id, writer, sk string, deny []string) int {
 	ident := w.ids.Identity(writer)
-	l, err := ipfslog.NewLog(w.api, ident, &ipfslog.LogOptions{ID: id, SortFn: sortFnOf(sk)})
+	opts := &ipfslog.LogOptions{ID: id, SortFn: sortFnOf(sk)}
+	var dl []string
+	if len(deny) > 0 {
+		ac := &denyAC{denied: map[string]bool{}}
+		for _, d := range deny {
+			k := hexs(w.ids.Identity(d).PublicKey)
+			ac.denied[k] = true
+			dl = append(dl, k)
+		}
+		opts.AccessController = ac
+	}
+	l, err := ipfslog.NewLog(w.api, ident, opts)
 	if err != nil {
 		panic(err)
 	}
 	w.reps = append(w.reps, &replica{log: l, writer: writer, sort: sk, id: id})
 	i := len(w.reps) - 1
-	fmt.Fprintf(w.out, "N %d %s %s %s\n", i, id, hexs(ident.PublicKey), sk)
+	fmt.Fprintf(w.out, "N %d %s %s %s %s\n", i, id, hexs(ident.PublicKey), sk, lst(dl))
 	return i
 }
 
@@ -169,7 +191,13 @@ func (w *world) doAppend(i int, pc int) {
 	}
 	e, err := l.Append(w.ctx, payload, opts)
 	if err != nil {
-		fmt.Fprintf(w.out, "A %d %d !err\n", i, pc)
+		tok := "!err"
+		if strings.Contains(err.Error(), "denied") {
+			tok = "!denied"
+		}
+		fmt.Fprintf(w.out, "A %d %d %s\n", i, pc, tok)
+		w.shape += fmt.Sprintf("A%d.%d!;", i, pc)
+		w.stats.DeniedAppends++
 		return
 	}
 	fmt.Fprintf(w.out, "A %d %d %s\n", i, pc, w.al(e))
@@ -212,6 +240,9 @@ func (w *world) doJoin(i, j, size int) {
 		}
 	}()
 	fmt.Fprintf(w.out, "J %d %d %d %s\n", i, j, size, res)
+	if res == "err" {
+		w.stats.RejectedJoins++
+	}
 	if size >= 0 {
 		w.stats.JoinNs++
 	} else {
@@ -454,7 +485,11 @@ func runCore(seed int64, nHist, nOps int, out *bufio.Writer, thorough bool) *cor
 			ops = minI(nOps, 14) // keep every sorted slice ≤ 20 elements (see DESIGN §4.1 Sorting)
 			stats.TieHists++
 		}
-		fmt.Fprintf(out, "H %d %d shared=%v bounded=%v sort=%s\n", h, hs, shared, bounded, sk)
+		acl := !shared && r.Intn(4) == 0
+		if acl {
+			stats.AclHists++
+		}
+		fmt.Fprintf(out, "H %d %d shared=%v bounded=%v sort=%s acl=%v\n", h, hs, shared, bounded, sk, acl)
 		for i := 0; i < nRep; i++ {
 			wr := fmt.Sprintf("w%d", i)
 			if shared {
@@ -464,7 +499,18 @@ func runCore(seed int64, nHist, nOps int, out *bufio.Writer, thorough bool) *cor
 			if i == nRep-1 && r.Intn(8) == 0 {
 				id = "Y"
 			}
-			w.newReplica(id, wr, sk)
+			var deny []string
+			if acl {
+				for j := 0; j < nRep; j++ {
+					if j != i && r.Intn(10) < 3 {
+						deny = append(deny, fmt.Sprintf("w%d", j))
+					}
+				}
+				if r.Intn(10) == 0 {
+					deny = append(deny, wr)
+				}
+			}
+			w.newReplica(id, wr, sk, deny)
 		}
 		for k := 0; k < ops; k++ {
 			n := len(w.reps)
@@ -500,8 +546,12 @@ func runCore(seed int64, nHist, nOps int, out *bufio.Writer, thorough bool) *cor
 				w.doLoad(i, kind, nn, wr, conc)
 				stats.OpHist["load:"+kind]++
 				continue
-			case c < 92 && shared:
-				w.doSetIdentity(i, fmt.Sprintf("w%d", r.Intn(nWr)))
+			case c < 92 && (shared || acl):
+				if acl {
+					w.doSetIdentity(i, fmt.Sprintf("w%d", r.Intn(nRep)))
+				} else {
+					w.doSetIdentity(i, fmt.Sprintf("w%d", r.Intn(nWr)))
+				}
 				stats.OpHist["setid"]++
 			default:
 				w.doAppend(i, 0)
